@@ -1,10 +1,12 @@
 package props
 
 import (
+	"bytes"
 	"encoding/binary"
 	"math/rand"
 	"net"
 	"testing"
+	"time"
 
 	"github.com/pion/turn/v5/verifharness/sim"
 	"github.com/pion/turn/v5/verifharness/wire"
@@ -175,6 +177,114 @@ func init() {
 
 			return 400
 		},
-		Run: runC05,
+		Run: func(t *testing.T, rng *rand.Rand, rec *sim.Rec, tier string, caseNo int) {
+			if caseNo%8 == 7 {
+				runC05E2E(t, rng, rec, tier, caseNo)
+
+				return
+			}
+			runC05(t, rng, rec, tier, caseNo)
+		},
 	})
+}
+
+// runC05E2E: payload integrity end to end through the real client: bursts of distinct datagrams in
+// both directions over Send/Data indications (before the channel is confirmed) and over ChannelData
+// (after), read only after the whole burst has arrived.
+func runC05E2E(t *testing.T, rng *rand.Rand, rec *sim.Rec, tier string, caseNo int) {
+	cfg := sim.Config{Realm: "verif.test", Users: map[string]string{"alice": "pw-a"}, UDPListeners: []*net.UDPAddr{{IP: sim.ServerIP4, Port: 3478}}}
+	w, err := sim.NewWorld(cfg, rec, rng, true)
+	if err != nil {
+		t.Fatal(err)
+	}
+	defer w.Shutdown()
+	w.Net.LogSends = false
+	logs := sim.NewLogSink()
+	rc, err := sim.NewRealClient(w.Net, net.IPv4(10, 1, 0, 1).To4(), 5000, "10.0.0.1:3478", "alice", "pw-a", "verif.test", 0, logs, nil)
+	if err != nil {
+		t.Fatal(err)
+	}
+	defer func() { rc.Client.Close(); _ = rc.Conn.Close() }()
+	if err := rc.Client.Listen(); err != nil {
+		t.Fatal(err)
+	}
+	conn, err := rc.Client.Allocate()
+	if err != nil {
+		rec.Inconclusive("allocate: %v", err)
+
+		return
+	}
+	defer conn.Close() //nolint:errcheck
+	relay := conn.LocalAddr().(*net.UDPAddr)
+	peer, _ := w.NewPeer("p", net.IPv4(10, 2, 0, 1).To4(), 7000)
+	burst := func(phase string) {
+		n := 2 + rng.Intn(40)
+		var toClient, toPeer [][]byte
+		for i := 0; i < n; i++ {
+			l := pick(rng, []int{0, 1, 3, 4, 5, 40, 41, 300, 1199, 1200, 1400})
+			a, b := make([]byte, l), make([]byte, l)
+			rng.Read(a)
+			rng.Read(b)
+			if l >= 4 {
+				a[0], a[1], b[0], b[1] = byte(i>>8), byte(i), byte(i>>8), byte(i)
+			}
+			toClient, toPeer = append(toClient, a), append(toPeer, b)
+		}
+		peer.UDP.Drain()
+		for i := 0; i < n; i++ {
+			_, _ = peer.UDP.WriteTo(toClient[i], relay)
+			if _, err := conn.WriteTo(toPeer[i], peer.Addr); err != nil {
+				rec.Violate("e2e-write", phase, "WriteTo failed: %v", err)
+
+				return
+			}
+		}
+		time.Sleep(50 * time.Millisecond)
+		// the application reads only now
+		buf := make([]byte, 2000)
+		for i := 0; i < n; i++ {
+			_ = conn.SetReadDeadline(time.Now().Add(time.Second))
+			k, from, err := conn.ReadFrom(buf)
+			if err != nil {
+				rec.Violate("e2e-lost", phase+"/to-client", "datagram %d of a burst of %d toward the client never surfaced at ReadFrom (%s): %v", i, n, phase, err)
+
+				return
+			}
+			if !bytes.Equal(buf[:k], toClient[i]) || from.String() != peer.Addr.String() {
+				rec.Violate("e2e-altered", phase+"/to-client", "datagram %d of a burst of %d (%s): ReadFrom returned %d bytes %x from %s, sent %d bytes %x from %s", i, n, phase, k, head(buf[:k]), from, len(toClient[i]), head(toClient[i]), peer.Addr)
+
+				return
+			}
+		}
+		got := peer.UDP.Drain()
+		if len(got) != n {
+			rec.Violate("e2e-lost", phase+"/to-peer", "%d of %d datagrams reached the peer (%s)", len(got), n, phase)
+
+			return
+		}
+		for i, d := range got {
+			if !bytes.Equal(d.Data, toPeer[i]) || d.Src.String() != relay.String() {
+				rec.Violate("e2e-altered", phase+"/to-peer", "datagram %d toward the peer (%s): got %d bytes %x from %s", i, phase, len(d.Data), head(d.Data), d.Src)
+
+				return
+			}
+		}
+		rec.EvN("e2e-datagrams-compared", 2*n)
+		rec.FP("e2e/%s/burst=%d", phase, min(n/10, 3))
+	}
+	_, _ = conn.WriteTo([]byte("open"), peer.Addr) // permission + first ChannelBind attempt
+	time.Sleep(5 * time.Millisecond)
+	peer.UDP.Drain()
+	burst("indications-or-early-channel")
+	time.Sleep(2 * time.Second) // the binding is confirmed by now
+	burst("channel")
+	time.Sleep(pick(rng, []time.Duration{time.Second, 6 * time.Minute}))
+	burst("channel-later")
+	rec.SetSample(map[string]any{"kind": "real-client-bursts"})
+}
+
+func init() {
+	sim.RegisterKind("e2e-write", "C05")
+	sim.RegisterKind("e2e-lost", "C05", "C13")
+	sim.RegisterKind("e2e-altered", "C05", "C13")
 }
